@@ -37,4 +37,18 @@ PROPS = {
         "assumptions": ["identifiers are ASCII (the model's trim is the ASCII fragment of str::trim; non-ASCII white space is not generated)",
                         "snapshots are taken after the last call of each history; every prefix of the exhaustive histories is itself an explored history"],
     },
+    "C11": {
+        "translators": [],
+        "count": {"quick": 60, "thorough": 600},
+        "rule": "random structures of arbitrary shape (0..3 or 0..6 children per level, possibly empty containers, duplicate and unordered identifiers, "
+                "random serial numbers): full_sort and par_full_sort snapshots, renumber and renumber twice, compared with the model; renumbered "
+                "structures without empty containers (sorted first in half of the cases): binary_find_atom and binary_find_atom_mut for serials "
+                "0..n+2 x alternate locations {None,A,B,C,Z} compared with the model's linear scan (property) and with the model's binary search "
+                "(correspondence); three add_bond calls and the resulting bonds(); number_to_base26 on 72 values.  non-trivial = structure with at "
+                "least two atoms / query that is present; distinct = distinct case line",
+        "assumptions": ["slice::sort and rayon par_sort are stable sorts (their documented contract); the model uses an insertion sort and the "
+                        "theorem C11_stable_sort_determined shows any sorted, stable rearrangement is the same list",
+                        "the structure-level theorem binary_find = linear_find on renumbered structures is not yet proved end to end: the generic "
+                        "binary-search theorem is, and the equality is checked on every explored structure and query"],
+    },
 }
